@@ -647,8 +647,12 @@ func (k *Keys) keyIndexOr0(pk types.PublicKey) int {
 // NewV2Contract returns an unsigned contract with ProofHeight=h+a, ExpirationHeight=ProofHeight+b and file size F.
 func (w *World) NewV2Contract(h, a, b, F uint64) types.V2FileContract {
 	capacity := (F + 63) / 64 * 64
+	var root types.Hash256
+	if F <= 1<<24 { // larger sizes only arise from deliberately corrupted parents (membership attacks): no file is materialised
+		root = spec.FileRoot(spec.FileData(int(F), byte(F%251)))
+	}
 	return types.V2FileContract{
-		Capacity: capacity, Filesize: F, FileMerkleRoot: spec.FileRoot(spec.FileData(int(F), byte(F%251))),
+		Capacity: capacity, Filesize: F, FileMerkleRoot: root,
 		ProofHeight: h + a, ExpirationHeight: h + a + b,
 		RenterOutput:    types.SiacoinOutput{Value: types.Siacoins(100).Add(types.NewCurrency64(123457)), Address: w.Keys.Addr(AddrV2)},
 		HostOutput:      types.SiacoinOutput{Value: types.Siacoins(60), Address: w.Keys.Addr(AddrV2b)},
